@@ -439,20 +439,17 @@ impl<'a, L> Engine<'a, L> {
     }
 }
 
-// check if node is a list map (bnode w/ exactly 1 rdf:first and 1 rdf:rest, possibly a rdf:List)
+// check if node is a list map (bnode w/ exactly 1 rdf:first and 1 rdf:rest, and nothing else)
+// NB: a node explicitly typed as rdf:List is not considered as a list node,
+// because '@list' does not generate that type when converted back to RDF.
 // IMPORTANT: for this to be accurate, it must also hold that rdf:rest points to a list node,
 // but this function is only called in situations where this is true
 fn is_list_node(node: &HashMap<Box<str>, Vec<RdfObject>>) -> bool {
-    2 <= node.len()
-        && node.len() <= 3
+    node.len() == 2
         && node.get(RDF_FIRST).is_some_and(|v| v.len() == 1)
         && node
             .get(RDF_REST)
             .is_some_and(|v| v.len() == 1 && v[0].is_node())
-        && (node.len() == 2
-            || node
-                .get("@type")
-                .is_some_and(|v| v.len() == 1 && v[0].eq_node(RDF_LIST)))
 }
 
 // check if node is a compound literal
@@ -476,7 +473,6 @@ const RDF_DIRECTION: &str = "http://www.w3.org/1999/02/22-rdf-syntax-ns#directio
 const RDF_FIRST: &str = "http://www.w3.org/1999/02/22-rdf-syntax-ns#first";
 const RDF_JSON: &str = "http://www.w3.org/1999/02/22-rdf-syntax-ns#JSON";
 const RDF_LANGUAGE: &str = "http://www.w3.org/1999/02/22-rdf-syntax-ns#language";
-const RDF_LIST: &str = "http://www.w3.org/1999/02/22-rdf-syntax-ns#List";
 const RDF_NIL: &str = "http://www.w3.org/1999/02/22-rdf-syntax-ns#nil";
 const RDF_REST: &str = "http://www.w3.org/1999/02/22-rdf-syntax-ns#rest";
 const RDF_VALUE: &str = "http://www.w3.org/1999/02/22-rdf-syntax-ns#value";
